@@ -24,7 +24,7 @@ CLAIMS = {
              ref="§3 C01", note=NOTE_COMMON + " Shard routing with solver-chosen type names (replayed by renaming the declared types) and re-entrant operations from inside handlers are separate entries."),
  "C04": dict(text="Once handler over every history of eligible / filter-rejected / cancelled-context / other-type publishes (sync and async, with and without filter, ordinary handlers around it): fires exactly once iff an eligible publish occurred, counted until then; two concurrent publishers racing for one Once handler under the preemption bound with the race monitor.",
              ref="§3 C04", note=NOTE_COMMON),
- "C05": dict(text="Every arrangement of panicking and non-panicking handlers (plain/context-aware, Once/Async/Sequential) over two publishes and Wait: no panic escapes (engine outcome), every handler still runs once, panic handler once per panic with event/type/value, no deadlock on the second publish (sequential lock released).",
+ "C05": dict(text="Every arrangement of panicking and non-panicking handlers (plain/context-aware, Once/Async/Sequential) over two publishes and Wait: no panic escapes (engine outcome), every handler still runs once, panic handler (installed by option or setter, with or without an observability layer) once per panic with event/type/value, also when the handler cancelled its context first; no deadlock on the second publish (sequential lock released).",
              ref="§3 C05", note=NOTE_COMMON),
  "C08": dict(text="Handler lists of sync/async x plain/context-aware handlers, cancellation before the call / by handler k / never, every subset of the four publish hooks: trace oracle over hook and handler start/end events, context values and cancellation seen by context-aware handlers; the otel module's hooks-as-observability composition is a separate entry over recording providers.",
              ref="§3 C08", note=NOTE_COMMON + " context is a Go-source model of package context."),
@@ -34,15 +34,15 @@ CLAIMS = {
              ref="§3 C12, Appendix C", note=NOTE_COMMON + " The SQLite store (file or :memory:) is covered for fault-free histories and for one failing driver operation through the database/sql model; a subscriber handler that publishes a follow-up event is part of the histories; a publisher interleaved with a running SubscribeWithReplay and concurrent live publishers are separate entries under the preemption bound (their defects are recorded known findings); the durable-streams store is outside this claim (see DESIGN)."),
  "C18": dict(text="Materializer driven through the real helpers, bus, memory store and Replay: every sequence of M insert/update/delete/reset/snapshot/unregistered messages over two entity types with SMT-string keys, strict or not, split into two sessions at any point; state compared with a last-writer-wins fold through a universally quantified probe key; a longer-log entry over a smaller alphabet; resume over the SQLite store (database/sql model) as a separate entry.",
              ref="§3 C18, Appendix C", note=NOTE_COMMON),
- "C19": dict(text="Round trip at JSON-tree level for every helper x option subset x arbitrary strings/nested entity, protocol field names read back from the stored tree; Apply on an arbitrary document (invalid, or an arbitrary tree refined lazily by the decoder's own case distinctions): never panics, error leaves collections and LastOffset unchanged.",
+ "C19": dict(text="Round trip at JSON-tree level for every helper x option subset x arbitrary strings/nested entity, protocol field names read back from the stored tree; Apply on an arbitrary document (invalid, or an arbitrary tree refined lazily by the decoder's own case distinctions): never panics, error leaves collections and LastOffset unchanged; a round trip through the SQLite store at every AUTOINCREMENT base position.",
              ref="§3 C19", note=NOTE_COMMON + " The byte-level JSON scanner/encoder (escaping, number syntax, UTF-8) is trusted std code outside the claim: 'every byte string' is covered as 'not JSON, or any tree the parser can produce'."),
- "C20": dict(text="Recording Observability whose start callbacks hand out child contexts with fresh ids; workloads mixing Once/Async/filtered/panicking handlers, cancelled contexts (also cancelled by a running handler), absent/succeeding/failing persistence and unencodable events: pairs balanced, complete gets its start's context, error flags truthful, handler/persist contexts descend from the publish context.",
+ "C20": dict(text="Recording Observability whose start callbacks hand out child contexts with fresh ids; workloads mixing Once/Async/filtered/panicking handlers, cancelled contexts (also cancelled by a running handler), absent/succeeding/failing persistence and unencodable events: pairs balanced, complete gets its start's context, error flags truthful, handler/persist contexts descend from the publish context; an Async(+Sequential) handler whose publish is cancelled right after it returned, under the preemption bound.",
              ref="§3 C20", note=NOTE_COMMON + " The OpenTelemetry implementation (otel module) runs over recording tracer/meter providers (Go-source model of the otel API surface it uses); the OTel SDK itself is outside the claim."),
  "C02": dict(text="Two goroutines performing short symbolic sequences of Subscribe(Once/filter)/Unsubscribe/Clear/Publish on shared handlers: every interleaving of their synchronisation operations within the preemption bound is executed, with invoke/return stamps and the real-time delivery rule of Appendix C plus the quiescent must/may registry as oracle; an Async(+Sequential) handler whose deliveries race with its removal; race monitor on.",
              ref="§3 C02, Appendix C", note=NOTE_COMMON + " Schedules are enumerated (lazy context-bounded scheme, iterative preemption bound), the solver decides the data under each schedule. Bounds: 2 goroutines, 2+1 (quick) / 2+2 (thorough) operations, at most 2 / 3 preemptions; more goroutines, operations or preemptions are outside the claim."),
  "C03": dict(text="Happens-before race monitor and deadlock detector over every pair of concurrent API operations (registry, persistence/replay, upcast registry, memory store, materializer) within the preemption bound, plus every single re-entrant call from handler, filter, before- and after-hook, panic handler and persistence error handler (writer-preferring RWMutex model); SQLite store: replay callbacks calling back into the store under the database/sql connection-pool model.",
              ref="§3 C03", note=NOTE_COMMON + " Outside: concurrency inside SQLite, durable-streams and the OTel SDK (modernc sqlite and net/http are not encoded; of database/sql only the connection-pool limit is modelled), configuration setters, more than two concurrent operations, preemptions above the bound."),
- "C06": dict(text="Async handlers that yield mid-way and publish second-level async work, two async handlers of one type, Wait and Shutdown(ctx) racing with a canceller goroutine and a Close-counting store, Shutdown called twice: every interleaving within the preemption bound.",
+ "C06": dict(text="Async handlers that yield mid-way and publish second-level async work, two async handlers of one type, Wait and Shutdown(ctx) racing with a canceller goroutine and a Close-counting store, Shutdown called twice, ClearAll before Shutdown, a publish context cancelled while the invocation runs: every interleaving within the preemption bound.",
              ref="§3 C06", note=NOTE_COMMON + " 'Every processor count' is subsumed by 'every schedule within the preemption bound'; real timers are outside."),
  "C07": dict(text="Sequential handler (enter; yield; exit; may panic) under 2-3 concurrent synchronous publishers, under Async dispatch, through Publish[any] and with a replay subscription catching up while a live publish arrives: never two invocations inside, every event exactly once; publish order of Async+Sequential is a recorded known finding (KF-C07-async-order), still checked so that it is reported once.",
              ref="§3 C07", note=NOTE_COMMON),
